@@ -138,7 +138,7 @@ pub fn run(r: &Report) {
     let thorough = r.tier == Tier::Thorough;
     let tier = if thorough { "thorough" } else { "quick" };
     let sub = "transcripts";
-    r.space(sub, true, "6 separately built configurations {none, alloc, std} x {half, no half} of minicbor + minicbor-serde; corpus: all byte strings <= 2 (3) bytes, hostile heads, all trees <= 4 (5) nodes in preferred form plus single deviations of trees <= 3 nodes; script: typed accessors, iterators, skip, datatype, typed decode of core / alloc types and derived types, tokens, display, serde from_slice (incl. deserialize_any and ignored_any), encode+len and Serializer over a fixed slice for a value corpus", 2);
+    r.space(sub, true, "6 separately built configurations {none, alloc, std} x {half, no half} of minicbor + minicbor-serde; corpus: all byte strings <= 2 bytes (thorough: plus all 3-byte strings behind 20 initial bytes, one per head class), hostile heads, all trees <= 4 (5) nodes in preferred form plus single deviations of trees <= 3 nodes; script: typed accessors, iterators, skip, datatype, typed decode of core / alloc types and derived types, tokens, display, serde from_slice (incl. deserialize_any and ignored_any), encode+len and Serializer over a fixed slice for a value corpus", 2);
     let inputs = cfg_inputs(thorough);
     let tmp = std::env::temp_dir();
     let mut transcripts: BTreeMap<&str, BTreeMap<String, Vec<Rec>>> = BTreeMap::new();
